@@ -103,9 +103,12 @@ func (c40) NewRun(plan *simrt.Source, job *harn.Job) harn.Run {
 	nf := 1 + plan.Draw(3)
 	names := []string{"a", "b/c", "d", "e/f/g"}[:nDirs]
 	if plan.Chance(300) {
-		// names that differ in case only are different directories here
+		// names that differ in case only (or by a leading dot) are different directories here
 		names = [][]string{{"a", "A", "b/c", "b/C"}, {"Foo", "foo", "d", "D"}, {"pkg/Util", "pkg/util", "X", "e"},
-			{".tools", "tools", ".github/scripts", "github/scripts"}, {"pkg/.internal", "pkg/internal", ".x", "x"}}[plan.Draw(5)][:nDirs]
+			{".tools", "tools", ".github/scripts", "github/scripts"}, {"pkg/.internal", "pkg/internal", ".x", "x"},
+			// names that are string prefixes of one another without being parents, and a real
+			// sub-directory: removing one directory says nothing about its look-alikes
+			{"pkg/api", "pkg/apiv2", "pkg/api_test", "pkg/api/internal"}, {"a", "ab", "a/b", "abc"}}[plan.Draw(7)][:nDirs]
 	}
 	r.rootKind = plan.Draw(4) // 0,1: a path that does not exist; 2: a real directory; 3: a real directory whose name has no letters
 	budget := maxOps
